@@ -138,12 +138,13 @@ def melody_case(draw):
     c["factor"] = draw(st.sampled_from(FACTORS))
     c["octaves"] = [draw(st.sampled_from([0, 0, 1, -1, 2])) for _ in c["est_freq"]]
     c["flip"] = [draw(st.booleans()) for _ in c["est_freq"]]
+    c["mel_kw"] = R.subset(draw, R.MEL_KW) if draw(st.booleans()) else {}
     return c
 
 
-def _mel_adjacent(ctx, rt, rf, et, ef, tol=50.0):
+def _mel_adjacent(ctx, rt, rf, et, ef, tol=50.0, **pre):
     """some compared frame pair lies within 1e-6 cent of the tolerance (raw or modulo octave) on the arrays actually compared"""
-    rv, rc, ev, ec = ctx.call(melody.to_cent_voicing, rt, rf, et, ef)
+    rv, rc, ev, ec = ctx.call(melody.to_cent_voicing, rt, rf, et, ef, **pre)
     for r, e in zip(rc, ec):
         if r != 0 and e != 0:
             d = abs(r - e)
@@ -153,31 +154,56 @@ def _mel_adjacent(ctx, rt, rf, et, ef, tol=50.0):
     return False
 
 
+def _on_base(ctx, rt, rf, et, ef, pre):
+    """some frequency handed to mir_eval equals base_frequency exactly: it converts to 0 cents, which the resampler and the metrics read
+    as 'no frequency' (KF-13).  Interpolation happens on cents and cannot create a 0 between two non-zero values, so looking at the
+    inputs is enough."""
+    base = pre.get("base_frequency", 10.0)
+    return bool(np.any(np.abs(rf) == base) or np.any(np.abs(ef) == base))
+
+
+KF13 = "c09.melody:frequency_equal_to_base_frequency_reads_as_no_frequency"
+
+
 def pred_melody(case, ctx):
     rt, rf, et, ef = _a(case["ref_time"]), _a(case["ref_freq"]), _a(case["est_time"]), _a(case["est_freq"])
-    if _mel_adjacent(ctx, rt, rf, et, ef):
+    kw = dict(case.get("mel_kw", {}))
+    pre = {k: v for k, v in kw.items() if k in ("hop", "kind", "base_frequency")}
+    if _mel_adjacent(ctx, rt, rf, et, ef, tol=float(kw.get("cent_tolerance", 50.0)), **pre):
         ctx.skip("a cent difference within 1e-6 of the tolerance")
         return False
-    s0 = ctx.call(melody.evaluate, rt, rf, et, ef)
+    if kw:
+        ctx.event("melody_keywords")
+    s0 = ctx.call(melody.evaluate, rt, rf, et, ef, **kw)
     c = case["factor"]
-    s1 = ctx.call(melody.evaluate, rt, rf * c, et, ef * c)
+    s1 = ctx.call(melody.evaluate, rt, rf * c, et, ef * c, **kw)
+    base0 = _on_base(ctx, rt, rf, et, ef, pre)
     for k in s0:
         if not abs(s0[k] - s1[k]) <= TOL:
+            if base0 or _on_base(ctx, rt, rf * c, et, ef * c, pre):
+                ctx.known(KF13, "%s %r -> %r under factor %r" % (k, s0[k], s1[k], c))
+                return False
             raise Violation("melody %s changes from %r to %r when all frequencies are multiplied by %r; case %r" % (k, s0[k], s1[k], c, case))
     # estimate-only whole-octave shifts: raw chroma accuracy unchanged (octave errors are what chroma accuracy forgives).
     # Only on a common time base: interpolating between two differently shifted samples is not an octave shift.
-    same_base = len(rt) == len(et) and bool(np.allclose(rt, et))
+    same_base = len(rt) == len(et) and bool(np.allclose(rt, et)) and "hop" not in kw
     octs = case["octaves"] if same_base else [case["octaves"][0]] * len(case["octaves"])
     ef2 = ef * np.array([2.0 ** o for o in octs])
-    s2 = ctx.call(melody.evaluate, rt, rf, et, ef2)
+    s2 = ctx.call(melody.evaluate, rt, rf, et, ef2, **kw)
     if not abs(s0["Raw Chroma Accuracy"] - s2["Raw Chroma Accuracy"]) <= TOL:
+        if base0 or _on_base(ctx, rt, rf, et, ef2, pre):
+            ctx.known(KF13, "Raw Chroma Accuracy %r -> %r under octave shifts of the estimate" % (s0["Raw Chroma Accuracy"], s2["Raw Chroma Accuracy"]))
+            return False
         raise Violation("Raw Chroma Accuracy changes from %r to %r under octave shifts %r of the estimate; case %r" % (s0["Raw Chroma Accuracy"], s2["Raw Chroma Accuracy"], octs, case))
     # negating estimated frequencies (marking them unvoiced) leaves raw pitch / chroma accuracy unchanged
     flips = case["flip"] if same_base else [case["flip"][0]] * len(case["flip"])
     ef3 = ef * np.array([-1.0 if f else 1.0 for f in flips])
-    s3 = ctx.call(melody.evaluate, rt, rf, et, ef3)
+    s3 = ctx.call(melody.evaluate, rt, rf, et, ef3, **kw)
     for k in ("Raw Pitch Accuracy", "Raw Chroma Accuracy"):
         if not abs(s0[k] - s3[k]) <= TOL:
+            if base0:
+                ctx.known(KF13, "%s %r -> %r under negation" % (k, s0[k], s3[k]))
+                return False
             raise Violation("%s changes from %r to %r when estimated frequencies are negated; case %r" % (k, s0[k], s3[k], case))
     nonid = c != 1.0 or any(octs) or any(flips)
     return nonid and 0 < s0["Raw Chroma Accuracy"] and s0["Raw Pitch Accuracy"] < 1
